@@ -477,11 +477,31 @@ class Server(_Server_):
         with self.mutex:
             self.id_to_refcount[ident] += 1
 
+    # Changes to the original version:
+    #   - do not use `self.id_to_local_proxy_obj`
+    #   - remove the entry from both tables in one step under the mutex. The standard version
+    #     drops the count first, lets go of the object, and deletes the `id_to_obj` entry in a
+    #     second step; in between, a new object created by another thread can get the same
+    #     `id(...)`, hence the same `ident`, and then loses its entry to that second step.
     def decref(self, c, ident):
-        assert (
-            ident in self.id_to_refcount
-        )  # disable the use of `self.id_to_local_proxy_obj`
-        super().decref(c, ident)
+        with self.mutex:
+            n = self.id_to_refcount[ident]
+            if n <= 0:
+                raise AssertionError(
+                    'Id {0!s} ({1!r}) has refcount {2:n}, not 1+'.format(
+                        ident, self.id_to_obj[ident], n
+                    )
+                )
+            if n > 1:
+                self.id_to_refcount[ident] = n - 1
+                return
+            del self.id_to_refcount[ident]
+            entry = self.id_to_obj.pop(ident)
+            util.debug('disposing of obj with id %r', ident)
+
+        # Let go of the object outside of the mutex: it may contain proxy objects,
+        # whose finalizers call `decref` in turn.
+        del entry
 
 
 class ServerProcess(BaseManager):
